@@ -298,6 +298,11 @@ pub fn build_xlsx(w: &Value) -> Vec<u8> {
             wb.push_str(&format!("</{}>", q(p, "definedNames")));
         }
     }
+    // "ext_workbookpr": true -> the extension list Excel 2013+ writes, whose x15:workbookPr has the
+    // local name of the workbook's own workbookPr (and no date1904 attribute)
+    if w["ext_workbookpr"].as_bool().unwrap_or(false) {
+        wb.push_str(&format!("<{e}><{x} uri=\"{{140A7094-0E35-4892-8432-C8D2B28F4B1F}}\" xmlns:x15=\"http://schemas.microsoft.com/office/spreadsheetml/2010/11/main\"><x15:workbookPr chartTrackingRefBase=\"1\"/></{x}></{e}>", e = q(p, "extLst"), x = q(p, "ext")));
+    }
     wb.push_str(&format!("</{}>", q(p, "workbook")));
     parts.push(("xl/workbook.xml".into(), wb.into_bytes()));
 
